@@ -65,6 +65,14 @@ func c17Values(thorough bool) []string {
 	core := []string{"'", "\\", "$", "`", " ", "\n", "*", "a", "-", "~", "#", "$(touch CANARY)"}
 	if thorough {
 		core = append(core, "\"", ";", "=", "é")
+		// every string of three ASCII bytes
+		for a := 1; a < 0x80; a++ {
+			for b := 1; b < 0x80; b++ {
+				for d := 1; d < 0x80; d++ {
+					add(string([]byte{byte(a), byte(b), byte(d)}))
+				}
+			}
+		}
 	}
 	for _, w := range core {
 		for _, x := range core {
@@ -350,7 +358,7 @@ func c17Run(c *fw.Ctx) error {
 			cases = append(cases, c17Case{Kind: "shellvar", Keys: []string{"k"}, Value: v})
 		}
 	}
-	c.Res.Bound = fmt.Sprintf("%d @sh values (every byte 0x01-0x7F, every pair, all strings of <= 3 atoms over a %d-atom alphabet, length 4 over a core) and %d -o=shell (key path, value) documents, each expanded by dash and bash", len(values), len(c17Atoms), len(cases)-len(values))
+	c.Res.Bound = fmt.Sprintf("%d @sh values (every byte 0x01-0x7F, every pair (thorough: every triple), all strings of <= 3 atoms over a %d-atom alphabet, length 4 over a core) and %d -o=shell (key path, value) documents, each expanded by dash and bash", len(values), len(c17Atoms), len(cases)-len(values))
 	var mine []c17Item
 	for i, cs := range cases {
 		if c.Mine(int64(i)) {
